@@ -17,6 +17,12 @@ BOUND = ("(union) disjoint unions of two networks with <= 4 variables each (hand
          "random parts), strategies build/bfs/dfs/block/scc/aseeds/min on the union, compared with the products of the brute-force minimal trap spaces and attractors "
          "of the parts; (inputs) networks with 1-3 source variables and <= 7 variables in total, every valuation: diagram of the network with the sources "
          "replaced by constants vs the part of the free-input bfs diagram below the node of that valuation (nodes, edges, motifs, attractor sets); "
+         "under the other complete strategies (build, block, scc, attractor-seed, dfs) the attractors reported inside every input valuation are compared with the "
+         "brute-force attractors of that valuation and with the diagram of the network with the sources fixed, built by the same strategy; "
+         "(blocks) block-structured networks with <= 8 variables - a motif-avoidant module (MAA core / 2-variable XNOR module) regulating a downstream bistable "
+         "module (8 module shapes x 2 polarities), the same module under different input valuations (motif-avoidant for one value of a source, clean for the other; "
+         "1-2 sources), optionally with an independent extra module, plus seeded compositions - as (inputs) cases under every strategy and as (union) cases "
+         "with a small independent partner under every strategy; "
          "(models) the published models with <= 12 (quick) / <= 16 (thorough) variables vs Attractors.attractors")
 RULE = "non-trivial = union: both parts have >= 2 variables; inputs: the sub-diagram below the valuation has >= 2 nodes; models: always"
 CASE_TIMEOUT = 120.0
@@ -37,7 +43,34 @@ def models(max_vars):
     return [f for _, f in sorted(out)]
 
 
+INPUT_STRATS = ["build", "block", "scc", "aseeds", "dfs", "bfs"]
+PARTNERS = ["switch", "sources1", "toggle", "latch", "osc", "maa_core"]
+
+
+def shape_cases(seed, tier):
+    """(blocks): block-structured networks under build / expand_block / expand_scc / attractor-seed expansion."""
+    partners = {"switch": families.norm("M1, M2; M2, M1"), "sources1": families.norm("i0, i0"), "toggle": families.norm("T1, !T2; T2, !T1"),
+                "latch": families.norm("L1, L1 | L2; L2, !L2 & !L1"), "osc": families.norm("O, !O"), "maa_core": families.rename(families.MAA_CORE, {"A": "E", "B": "F", "C": "G"})}
+    for k, (name, bnet) in enumerate(families.block_nets(seed, tier)):
+        n = len(families.variables(bnet))
+        has_src = any(v == e for v, e in families.parse_rules(bnet))
+        first = name in families.BLOCKS or name.startswith("cond")
+        if has_src:
+            for strat in (INPUT_STRATS if first else [INPUT_STRATS[k % 4], INPUT_STRATS[(k + 1) % 4]]):
+                yield {"kind": "inputs", "net": name, "bnet": bnet, "strategy": strat}
+        for j, strat in enumerate(["build", "block", "scc", "aseeds", "bfs", "dfs"] if first else [["build", "block", "scc", "aseeds"][k % 4]]):
+            pn = PARTNERS[(k + j) % len(PARTNERS)]
+            if n + len(families.variables(partners[pn])) <= 8:
+                yield {"kind": "union", "a": bnet, "b": partners[pn], "names": [name, pn], "strategy": strat}
+            elif n <= 7:
+                yield {"kind": "union", "a": bnet, "b": partners["osc"], "names": [name, "osc"], "strategy": strat}
+
+
 def cases(seed, tier):
+    yield from families.interleave((shape_cases(seed, tier), 2), (general_cases(seed, tier), 4))
+
+
+def general_cases(seed, tier):
     ms = models(12 if tier == "quick" else 16)
     rng = random.Random(f"{seed}-c18")
     pairs = [(a, b) for a in PARTS for b in PARTS if len(families.variables(families.HAND[a])) + len(families.variables(families.HAND[b])) <= 8]
@@ -115,14 +148,42 @@ def check_union(case, info):
         return frozenset(tuple(sorted({**A.state_dict(x), **{mb[k]: v for k, v in B.state_dict(y).items()}}.items())) for x in A.states(a) for y in B.states(b))
 
     exp_att = sorted(sorted(prod(a, b)) for a in A.attractors() for b in B.attractors())
-    obs_att = []
+    obs_att, where = [], []
     for i in sd.expanded_ids():
         for vs in sd.node_attractor_sets(i, compute=True):
             obs_att.append(sorted(tuple(sorted((v, int(m.to_named_dict()[v])) for v in names)) for m in vs.items()))
+            where.append(i)
     if sorted(obs_att) != exp_att:
+        uniq = sorted({tuple(x) for x in obs_att})
+        if [list(x) for x in uniq] == exp_att and case["strategy"] == "scc":
+            # the SET of attractors is right, some are reported more than once.  Exactly-once reporting is C01's clause; its finding D14 (source-SCC expansion:
+            # a motif-avoidant attractor reported by two nodes that are not ancestor-related, every node correct for its own successors) is not repeated here.
+            unet = oracle.Net.from_bnet(text)
+            reports = [(i, unet.bits([unet.state_of(dict(st)) for st in att])) for i, att in zip(where, obs_att)]
+            if not unexplained_scc_duplicates(sd, unet, reports):
+                return out
         out.append(fail("union_attractors", "for the disjoint union the attractors are exactly the pairwise products of those of the parts", case["strategy"],
                         observed=len(obs_att), expected=len(exp_att)))
     return out
+
+
+def unexplained_scc_duplicates(sd, net, reports):
+    """Attractors reported more than once that are NOT an instance of finding D14 (see C01.classify_scc_duplicate)."""
+    import networkx as nx
+
+    from common import check_cache
+
+    bad = []
+    per_node_ok = not any(check_cache(sd, net, i, what=("seeds",)) for i in sd.expanded_ids())
+    maas = set(net.motif_avoidant())
+    for a in {a for _, a in reports}:
+        nodes = [i for i, b in reports if b == a]
+        if len(nodes) < 2:
+            continue
+        unrelated = all(y not in nx.descendants(sd.dag, x) and x not in nx.descendants(sd.dag, y) for k, x in enumerate(nodes) for y in nodes[k + 1:])
+        if not (per_node_ok and a in maas and len(set(nodes)) == len(nodes) and unrelated):
+            bad.append(a)
+    return bad
 
 
 def check_inputs(case, info):
@@ -134,6 +195,9 @@ def check_inputs(case, info):
     info["sub_nodes"] = 0
     if not srcs or len(srcs) > 4:
         return out
+    strat = case.get("strategy", "bfs")
+    if strat != "bfs":
+        return check_inputs_strategy(case, info, net, srcs, strat)
     free = make_sd(case["bnet"])
     free.expand_bfs()
     rules = families.parse_rules(case["bnet"])
@@ -174,6 +238,52 @@ def check_inputs(case, info):
         if sa != ref:
             out.append(fail("input_attractors_reference", "the attractors below the valuation node are the attractors of the network with that input valuation", f"valuation {val}",
                             observed=len(sa), expected=len(ref)))
+    return out
+
+
+def check_inputs_strategy(case, info, net, srcs, strat):
+    """Input conditioning under a strategy whose diagram need not contain the valuation nodes' full sub-diagrams (source shortcuts, block / SCC
+    attachment): the ATTRACTORS reported inside every input valuation are those of the network with the inputs fixed to it (brute force), each
+    exactly once, and the diagram of the fixed network built by the same strategy reports the same ones."""
+    out = []
+    free = make_sd(case["bnet"])
+    free, r = run_step(free, STRATEGIES[strat])
+    if isinstance(r, dict) or r is False:
+        return out
+    reports = []
+    for i in free.expanded_ids():
+        for vs in free.node_attractor_sets(i, compute=True):
+            reports.append((i, vertex_set_bits(free, net, vs)))
+    found = [a for _, a in reports]
+    known_dup = set()
+    if strat == "scc" and len(found) != len(set(found)):
+        known_dup = {a for a in found if found.count(a) > 1} - set(unexplained_scc_duplicates(free, net, reports))  # D14, owned by C01
+    rules = families.parse_rules(case["bnet"])
+    for vals in itertools.product((0, 1), repeat=len(srcs)):
+        val = dict(zip(srcs, vals))
+        m = net.mask(val)
+        ref = sorted(a for a in net.attractors() if a & ~m == 0)
+        obs = sorted(a for a in found if a & ~m == 0)
+        if known_dup:
+            obs = sorted(set(a for a in obs if a in known_dup)) + [a for a in obs if a not in known_dup]
+            obs.sort()
+        info["sub_nodes"] = max(info["sub_nodes"], sum(1 for i in free.node_ids() if oracle.is_subspace(free.node_data(i)["space"], val)))
+        if obs != ref:
+            out.append(fail("input_attractors_reference", "the attractors reported inside an input valuation are the attractors of the network with that input valuation",
+                            f"strategy {strat}, valuation {val}: {len([a for a in ref if a not in obs])} missing, {len(obs) - len(set(obs))} duplicated, "
+                            f"{len([a for a in set(obs) if a not in ref])} spurious", observed=len(obs), expected=len(ref)))
+        fixed_text = families.to_bnet([(v, ("true" if val[v] else "false") if v in val else e) for v, e in rules])
+        fx = make_sd(fixed_text)
+        fx, rf = run_step(fx, STRATEGIES[strat])
+        if isinstance(rf, dict) or rf is False:
+            continue
+        fnet = oracle.Net.from_bnet(fixed_text)
+        sb = sorted(attractor_sets(fx, fnet))
+        if strat == "scc" and sb != obs and sorted(set(sb)) == sorted(set(obs)) == ref:
+            continue  # same set, duplicates only (the fixed network's scc diagram can show D14 as well): exactly-once reporting is C01's clause
+        if sb != obs:
+            out.append(fail("input_subdiagram_attractors", "the diagram with the sources fixed has the same attractors as the free-input diagram inside that valuation",
+                            f"strategy {strat}, valuation {val}", observed=len(sb), expected=len(obs)))
     return out
 
 
